@@ -37,6 +37,8 @@ CHECKS['C08'] = (T % ('the full product of 13 frequencies x 5 R x 8 L x 14 C for
          'Every parameter combination of the menus is evaluated on the real load classes / solver.', 'scipy Kelvin functions; documented |kr|=110 asymptote', '3/C08')
 CHECKS['C11'] = (T % ('in-domain ground structures (sources on interior and grounded pulses, loads on grounded pulses) x 28 single-medium constant pairs, 2/3/4-media linear and circular layouts with boundaries below/between/beyond the reflection points, radials 8/120, all splits of a medium into 2..3 equal-constant pieces and appended media beyond every reflection point', 'the ideal-ground solution (currents/impedances identical), the conductivity sequence towards the ideal pattern, and the unsplit / unappended pattern'),
          'Every media configuration of the menu is solved for every structure in the bound.', 'reflection points computed by the harness from pulse heights and the direction grid (specular reflection)', '3/C11')
+CHECKS['C01'] = (T % ('lattice structures with <=2 (thorough 3) wires at 5..9 segments per edge, 7 standard resonant antennas, tapered/arc/helix structures x environments (free, ideal, 6 real-ground layouts incl. radials) x source sets (1..3 sources, complex voltages) x 5..6 load sets', 'the power balance computed by the harness from the applied voltages, the solved currents, load.impedance and a Simpson x trapezoid integral of the reported gain over the sphere'),
+         'Every case of the product within the bound is solved and integrated. The enumeration is confined by geometry-only predicates (thin-wire rules, no exact-kernel misfire, 5 % segmentation convergence, flat ground); two concrete inputs outside them are listed known findings.', 'sphere quadrature on a 2.5 x 5 degree grid (error < 0.05 %)', '3/C01')
 NA = {}
 def main():
     src = subprocess.run(['git', '-C', '/repo', 'log', '--format=%H %s'], capture_output=True, text=True).stdout
